@@ -24,8 +24,11 @@ func runC01(r *harness.Run) {
 		"F-ctrl":   genCtrl(th),
 		"F-numfor": genNumFor(th),
 		"F-tcons":  genTCons(th),
+		"F-genfor": genGenFor(th),
+		// failing operations inside statements spread over several lines (every token gap): on which line it fails
+		"F-faultline": genFaultLine(th),
 	}
-	order := []string{"F-assign", "F-tcons", "F-numfor", "F-cond", "F-ctrl", "F-expr"}
+	order := []string{"F-assign", "F-tcons", "F-numfor", "F-genfor", "F-faultline", "F-cond", "F-ctrl", "F-expr"}
 	r.Rule = "every program of the families F-assign (all multiple assignments/local declarations over 8 target kinds x 11 source kinds with aliasing), " +
 		"F-expr (all operator trees over a typed leaf alphabet x destination contexts x surrounding code), F-cond (boolean skeletons in value and branch position), " +
 		"F-ctrl (statement trees over if/while/repeat/for/break/goto/return), F-numfor (all start/limit/step triples), F-tcons (table constructors around the flush boundary) " +
@@ -839,6 +842,88 @@ func renameConts(stats []Stat, cur string, n *int) {
 			loop(s.Body)
 		case *GenForStat:
 			loop(s.Body)
+		}
+	}
+}
+
+// ---- F-genfor --------------------------------------------------------------------------------------
+
+// Generic for over iterators whose control values run through every value kind: the loop ends only
+// when the first value is nil (false, 0 and "" continue), the control value is passed back
+// unchanged, the state is passed every time, extra results are dropped and missing ones are nil.
+func genGenFor(thorough bool) Gen {
+	return func(yield func(*Prog)) {
+		type cv struct {
+			name string
+			mk   func() Expr
+		}
+		ctl := []cv{
+			{"false", func() Expr { return False() }}, {"0", func() Expr { return Num(0) }}, {"1", func() Expr { return Num(1) }}, {`""`, func() Expr { return Str("") }},
+			{`"s"`, func() Expr { return Str("s") }}, {"true", func() Expr { return True() }}, {"tab", func() Expr { return Name("ltab") }}, {"nil", func() Expr { return Nil() }},
+		}
+		// sequences of 1..3 control values followed by nil
+		var seqs [][]int
+		var rec func(cur []int)
+		rec = func(cur []int) {
+			if len(cur) > 0 {
+				seqs = append(seqs, append([]int(nil), cur...))
+			}
+			if len(cur) == 3 {
+				return
+			}
+			for i := range ctl[:7] {
+				if !thorough && len(cur) == 2 && i > 3 {
+					continue
+				}
+				rec(append(cur, i))
+			}
+		}
+		rec(nil)
+		for _, sq := range seqs {
+			for nvars := 1; nvars <= 3; nvars++ {
+				for _, kind := range []string{"closure", "stateless", "callable", "host"} {
+					sq, nvars, kind := sq, nvars, kind
+					name := ""
+					for _, i := range sq {
+						name += ctl[i].name + ","
+					}
+					yield(&Prog{Family: "F-genfor", Shape: fmt.Sprintf("ctl=%s/vars=%d/%s", name, nvars, kind), Mk: func() *Block {
+						// seq = {v1, v2, ...}; the iterator returns seq[n], "x"..n, "dropped" for n = 1.. and nil after the last
+						var fs []Field
+						for _, i := range sq {
+							fs = append(fs, Pos1(ctl[i].mk()))
+						}
+						vars := []string{"a", "b", "c"}[:nvars]
+						var obs []Expr
+						for _, v := range vars {
+							obs = append(obs, Name(v))
+						}
+						st := []Stat{Local1("seq", TableE(fs...)), Local1("n", Num(0))}
+						nseq := float64(len(sq))
+						step := []Stat{Assign1(Name("n"), Bin("+", Name("n"), Num(1))), If(Bin(">", Name("n"), Num(nseq)), Return(Nil())), Return(Index(Name("seq"), Name("n")), Bin("..", Str("x"), Name("n")))}
+						var explist []Expr
+						switch kind {
+						case "closure":
+							st = append(st, LocalFunc("it", Func(names("s", "c"), false, append([]Stat{Emit(Str("it"), Name("s"), Name("c"))}, step...)...)))
+							explist = []Expr{Name("it"), Str("state"), Str("init")}
+						case "stateless":
+							// control value travels through the loop: index kept in the state table
+							st = append(st, LocalFunc("it", Func(names("s", "c"), false, Emit(Str("it"), Name("c")), Assign1(Dot(Name("s"), "i"), Bin("+", Dot(Name("s"), "i"), Num(1))), If(Bin(">", Dot(Name("s"), "i"), Num(nseq)), Return()), Return(Index(Name("seq"), Dot(Name("s"), "i")), Dot(Name("s"), "i"), Str("third"), Str("dropped")))))
+							explist = []Expr{Name("it"), TableE(NamedField("i", Num(0)))}
+						case "callable":
+							h := Func(names("self", "s", "c"), false, append([]Stat{Emit(Str("call"), Name("s"), Name("c"))}, step...)...)
+							st = append(st, Local1("it", CallN("setmetatable", TableE(), TableE(NamedField("__call", h)))))
+							explist = []Expr{Name("it"), Str("state")}
+						case "host":
+							// a host function as iterator: hid returns its arguments (state, control): first value = state
+							st = append(st, LocalFunc("it", Func(names("s", "c"), false, step...)))
+							explist = []Expr{CallN("hid", Name("it"), Str("hs"), Str("hc"))}
+						}
+						st = append(st, GenFor(vars, explist, Emit(obs...)), Emit(Str("n"), Name("n")))
+						return wrapTest(exprPrelude(), st)
+					}})
+				}
+			}
 		}
 	}
 }
